@@ -127,6 +127,22 @@ def shards(tier: str, seed: int) -> list[dict[str, Any]]:
                     plan[i].append(hit[0])  # type: ignore[union-attr]
                     seen_kinds.add(kind)
                     break
+        # ... and the option features: short flag on an Annotated type, positional, const flag
+        features = {
+            "short+annotated": lambda d: bool(d.short) and d.spec.top_annotated,
+            "positional": lambda d: d.positional,
+            "const": lambda d: d.const is not S.UNSET,
+        }
+        for pred in features.values():
+            if any(plan[i] is None and any(pred(d) for d in _options(c)) for i, (_, c) in enumerate(cmds)):
+                continue
+            if any(plan[i] is not None and any(pred(d) and d.name in plan[i] for d in _options(c)) for i, (_, c) in enumerate(cmds)):  # type: ignore[operator]
+                continue
+            for i, (_, c) in enumerate(cmds):
+                hit = [d.name for d in _options(c) if pred(d)]
+                if hit and plan[i] is not None:
+                    plan[i].append(hit[0])  # type: ignore[union-attr]
+                    break
         for i, (path, _) in enumerate(cmds):
             out.append({"mode": "command", "index": i, "path": list(path), "options": plan[i], "rounds": 1, "full_every": 25})
     out.append({"mode": "template"})
